@@ -2384,6 +2384,27 @@ func (d *Document) parseRun(decoder *xml.Decoder, startElement xml.StartElement)
 				}
 				// 一个运行可以包含多个文本元素（例如以制表符分隔），全部保留
 				run.Text.Content += content
+			case "br":
+				// 解析换行/分页符
+				run.Break = &Break{Type: getAttributeValue(t.Attr, "type")}
+				if err := d.skipElement(decoder, t.Name.Local); err != nil {
+					return nil, err
+				}
+			case "fldChar":
+				// 解析域字符
+				run.FieldChar = &FieldChar{FieldCharType: getAttributeValue(t.Attr, "fldCharType")}
+				if err := d.skipElement(decoder, t.Name.Local); err != nil {
+					return nil, err
+				}
+			case "instrText":
+				// 解析域指令文本
+				instr := &InstrText{Space: getAttributeValue(t.Attr, "space")}
+				content, err := d.readElementText(decoder, "instrText")
+				if err != nil {
+					return nil, err
+				}
+				instr.Content = content
+				run.InstrText = instr
 			case "drawing":
 				// 解析绘图元素（图片等）
 				drawing, err := d.parseDrawingElement(decoder, t)
